@@ -13,7 +13,8 @@ Theorem c20_tie :
   Gen_classic.upload_skel = std_skel the_guard Local Remote /\ Gen_classic.download_skel = std_skel the_guard Remote Local /\
   Gen_classic.download_skel = swap_skel Gen_classic.upload_skel /\
   fk_body (sk_file Gen_classic.upload_skel) = [SRead; SBreakIfEmpty; SWrite] /\
-  Gen_classic.default_chunk_is_STREAM_CHUNK = true /\ (1 <= Gen_consts.STREAM_CHUNK)%Z.
+  Gen_classic.default_chunk_is_STREAM_CHUNK = true /\ (1 <= Gen_consts.STREAM_CHUNK)%Z /\
+  Gen_classic.upload_package_is_plain_upload = true.
 Proof. repeat split. discriminate. Qed.
 Print Assumptions c20_tie.
 
@@ -135,6 +136,32 @@ Theorem c20_invalid_top : forall flt chunk dst src, src = None \/ src = Some Spe
 Proof. exact (upload_invalid the_guard). Qed.
 Print Assumptions c20_invalid_top.
 
+(* 7. the default chunk size (chunk_size omitted: rpyc.core.consts.STREAM_CHUNK, regenerated) is in the domain of 1-4 *)
+Definition default_chunk : N := Z.to_N Gen_consts.STREAM_CHUNK.
+Theorem c20_default_chunk : forall t flt ign data, wf_tree t = true -> t <> Special ->
+  copy_file_with (fk_body (sk_file Gen_classic.upload_skel)) default_chunk data = Ok data /\
+  transfer Gen_classic.upload_skel flt default_chunk ign {| at_local := Some t; at_remote := None |}
+    = Ok {| at_local := Some t; at_remote := Some (prune (guard the_guard flt) t) |} /\
+  transfer Gen_classic.download_skel flt default_chunk ign {| at_local := None; at_remote := Some t |}
+    = Ok {| at_local := Some (prune (guard the_guard flt) t); at_remote := Some t |}.
+Proof.
+  assert (H : 1 <= default_chunk) by (vm_compute; discriminate).
+  intros t flt ign data HW HS. split; [exact (copy_file_id _ data H)|]. split.
+  - exact (upload_fresh the_guard flt default_chunk ign t H HW HS).
+  - exact (download_fresh the_guard flt default_chunk ign t H HW HS).
+Qed.
+Print Assumptions c20_default_chunk.
+
+(* 8. upload_package(conn, module, remotepath, chunk_size) with an explicit remotepath where nothing exists: the module's
+      directory (files and directories only) arrives whole -- it is upload without a filter.  The remotepath=None branch
+      (the peer's site-packages via distutils) is outside: only its text is snapshotted. *)
+Theorem c20_upload_package : forall t chunk, 1 <= chunk -> wf_tree t = true -> no_special t = true ->
+  Gen_classic.upload_package_is_plain_upload = true /\
+  transfer Gen_classic.upload_skel None chunk false {| at_local := Some t; at_remote := None |}
+  = Ok {| at_local := Some t; at_remote := Some t |}.
+Proof. intros t chunk H1 H2 H3. split; [reflexivity|]. exact (upload_package_fresh the_guard chunk t H1 H2 H3). Qed.
+Print Assumptions c20_upload_package.
+
 (* ---- non-vacuity ---- *)
 Import Coq.Strings.String.
 Definition nm (s : string) : name := Sx.bs s.
@@ -178,6 +205,14 @@ Example c20_sample_into_existing :
                                                 (nm "b", Dir [(nm "exact", File (payload ++ [x44; x45]))])]);
                                   (nm "skip.pyc", File [x09]); (nm "emptydir", Dir [])]) |}.
 Proof. vm_compute. split; reflexivity. Qed.
+
+Definition package : node :=
+  Dir [(nm "__init__.py", File payload); (nm "mod.py", File []); (nm "sub", Dir [(nm "__init__.py", File [x23])]); (nm "data", Dir [])].
+Example c20_sample_package_and_default_chunk :
+  wf_tree package = true /\ no_special package = true /\ (1 <=? default_chunk) = true /\
+  transfer Gen_classic.upload_skel None default_chunk false {| at_local := Some package; at_remote := None |}
+  = Ok {| at_local := Some package; at_remote := Some package |}.
+Proof. vm_compute. repeat split. Qed.
 
 (* the hypotheses are needed and the shape matters: chunk 0 copies nothing; the "stop at a short read" variant of the
    loop loses the last partial chunk *)
